@@ -18,6 +18,7 @@ def run(cmd, cwd, log):
 
 def main():
     wt, out, name, prop, crate, filt = sys.argv[1:7]
+    extra = " ".join(sys.argv[7:])
     dest = "/verif/seeded/" + name
     os.makedirs(dest, exist_ok=True)
     log = open(os.path.join(dest, "confirm.log"), "w")
@@ -26,11 +27,11 @@ def main():
     run("git checkout -- . && git clean -fdq -e target -e Cargo.lock", wt, log)
     r = run("git apply %s/demo.diff" % out, wt, log)
     res["demo_applies_on_head"] = r.returncode == 0
-    r = run("cargo test -p %s --lib --tests --offline %s -- %s" % (crate, J, filt), wt, log)
+    r = run("cargo test -p %s --lib --tests --offline %s %s -- %s" % (crate, J, extra, filt), wt, log)
     res["demo_passes_without_change"] = r.returncode == 0 and "test result: ok" in r.stdout and " 0 passed" not in r.stdout.split("test result: ok.")[-1][:40] if r.returncode == 0 else False
     r = run("git apply %s/patch.diff" % out, wt, log)
     res["patch_applies"] = r.returncode == 0
-    r = run("cargo test -p %s --lib --tests --offline %s -- %s" % (crate, J, filt), wt, log)
+    r = run("cargo test -p %s --lib --tests --offline %s %s -- %s" % (crate, J, extra, filt), wt, log)
     res["demo_fails_with_change"] = r.returncode != 0 and ("FAILED" in r.stdout or "panicked" in r.stdout)
     # existing tests with the change only (demo removed)
     run("git checkout -- . && git clean -fdq -e target -e Cargo.lock", wt, log)
